@@ -272,6 +272,55 @@ def r03_4(ctx: Ctx) -> None:
     _ = module
 
 
+def r03_5(ctx: Ctx) -> None:
+    """ sorted-sweep consistency in merge_over_origin: the list is swept comparing each
+        element with the running previous *extended* interval, so it has to be sorted by
+        the start of that same interval (tuple slot), otherwise neighbours in the order
+        are not neighbours on the genome (first/last chains across the origin) """
+    qual = "merge_over_origin"
+    func = ctx.fn(CP, qual)
+    sorts = [c for c in calls(func) if last_attr(c) == "sort" and kwarg(c, "key") is not None]
+    overlaps = [c for c in calls(func) if call_name(c) == "locations_overlap" and enclosing_loops(c, stop=func)]
+    if len(sorts) != 1 or len(overlaps) != 1:
+        raise AnalysisError(f"{qual}: expected one keyed sort and one overlap test in the sweep "
+                            f"(found {len(sorts)}, {len(overlaps)})")
+    key = kwarg(sorts[0], "key")
+    test = overlaps[0]
+    # which tuple slot holds the running previous interval used by the overlap test?
+    slots = {}
+    for node in walk_local(func):
+        if isinstance(node, ast.Assign) and len(node.targets) == 1 and isinstance(node.targets[0], ast.Tuple) \
+                and isinstance(node.value, ast.Subscript):
+            for index, elt in enumerate(node.targets[0].elts):
+                if isinstance(elt, ast.Name):
+                    slots.setdefault(elt.id, set()).add(index)
+    prev_args = [a.id for a in test.args if isinstance(a, ast.Name) and a.id in slots]
+    if len(prev_args) != 1 or len(slots[prev_args[0]]) != 1:
+        ctx.cannot("R03.5", CP, test, qual, "sweep test", f"cannot identify the running interval in {txt(test)}")
+        return
+    slot = next(iter(slots[prev_args[0]]))
+    if not (isinstance(key, ast.Lambda) and len(key.args.args) == 1):
+        ctx.cannot("R03.5", CP, sorts[0], qual, "sort key", f"sort key is not a one-argument lambda: {txt(key)}")
+        return
+    param = key.args.args[0].arg
+    want = f"{param}[{slot}].start"
+    ctx.ob("R03.5", CP, sorts[0], qual, "sort key vs sweep interval", txt(key.body) == want,
+           f"the sweep compares each core with the running previous cutoff-extended interval (tuple slot {slot}, "
+           f"`{prev_args[0]}`), so the list must be sorted by the start of that slot",
+           form=f"key: {txt(key.body)}; sweep test: {txt(test)}")
+    # the extended interval is the core extended by the cluster's own cutoff
+    for call in calls(func):
+        if last_attr(call) == "extend_location":
+            base, dist = arg_of(call, 0, "location"), arg_of(call, 1, "distance")
+            par = getattr(call, "_parent", None)
+            if isinstance(par, ast.Tuple) and len(par.elts) == 2 and par.elts[1] is call:
+                ok = base is not None and txt(base).endswith(".core_location") and dist is not None \
+                    and txt(dist).endswith(".cutoff")
+                ctx.ob("R03.5", CP, call, qual, f"extended interval {stmt_key(call)}", ok,
+                       "the interval paired with a protocluster in the sweep is its core extended by the cutoff",
+                       form=txt(par))
+
+
 def run(ctx: Ctx) -> None:
     ctx.rule("R03.1", "loop-carried definition rule on the per-rule evaluation in apply_cluster_rules", floor=5)
     ctx.rule("R03.2", "'closer than cutoff' sites are strict and use exactly the cutoff", floor=2)
@@ -281,3 +330,5 @@ def run(ctx: Ctx) -> None:
     r03_2(ctx)
     r03_3(ctx)
     r03_4(ctx)
+    ctx.rule("R03.5", "sorted-sweep consistency of the origin merge", floor=3)
+    r03_5(ctx)
